@@ -67,6 +67,11 @@ type tcase struct {
 	Functional bool     `json:"functional"`
 	// lifecycle histories emitted by spec/LifecycleTotal.tla (same shape as Lifecycle.tla behaviours)
 	Reqs []lcReq `json:"reqs"`
+	// bigcalls family
+	Shape     string `json:"shape"`
+	Size      int    `json:"size"`
+	Doubled   bool   `json:"doubled"`
+	Recursive bool   `json:"recursive"`
 	// jump / initerr / director families
 	StmtC    string `json:"jstmt"`
 	Nest     string `json:"nest"`
@@ -208,7 +213,11 @@ func assignText(c *tcase) (setup, stmt string, ok bool) {
 
 var argClasses = map[string][]string{
 	// strings of length 0, 1, 2, 3 (sizes that multiply with counts), not set, and awkward contents
-	"STRING": {`""`, `"a"`, "req.http.Never-Set", `"%E3%81%82 \ ( [ * ? + {"`, `"ab"`, `"abc"`, `"-1"`, `"9999999999999999999999"`},
+	// 9..20: truncated / malformed percent escapes as VALUES (%25 is the literal's escape for a percent sign), a lone
+	// surrogate escape, invalid UTF-8 bytes, a lone quote, a lone backslash, separators only, 64 KiB, numeric garbage
+	"STRING": {`""`, `"a"`, "req.http.Never-Set", `"%E3%81%82 \ ( [ * ? + {"`, `"ab"`, `"abc"`, `"-1"`, `"9999999999999999999999"`,
+		`"rate=100%25"`, `"x%254"`, `"%25zz"`, `"%25u12"`, `"%25uD800"`, `digest.base64_decode("//5hwA==")`, `"%22"`, `"\"`, `",;=&,;=&"`, "var.long64k",
+		`"0x"`, `"a=%25&b=%252&%25=c"`},
 	// 2^62 and 2^62+1: with a size of 2..4 the product wraps around 2^63 / 2^64
 	"INTEGER": {"0", "-1", "9223372036854775807", "64", "math.INTEGER_MIN", "1", "4611686018427387904", "4611686018427387905"},
 	"FLOAT":   {"0.0", "-1.5", "math.FLOAT_MAX", "0.5", "math.NAN", "math.POS_INFINITY"},
@@ -232,12 +241,23 @@ ratecounter rc {}
 penaltybox pb {}
 `
 
-const builtinSetup = `declare local var.ipunset IP;
+const builtinSetup = `declare local var.long64k STRING;
+set var.long64k = "%s";
+declare local var.ipunset IP;
 declare local var.rneg RTIME;
 set var.rneg = 0s;
 set var.rneg -= 290y;
 set req.http.H = "h";
 `
+
+var builtinSetupCache string
+
+func builtinSetupText() string {
+	if builtinSetupCache == "" {
+		builtinSetupCache = fmt.Sprintf(builtinSetup, strings.Repeat("0123456789abcdef", 4096))
+	}
+	return builtinSetupCache
+}
 
 func builtinText(c *tcase) (stmt string, ok bool) {
 	args := make([]string, len(c.Types))
@@ -439,7 +459,7 @@ func run(args []string) int {
 			if !ok {
 				r = result{Outcome: "unbound", Msg: "argument type without classes"}
 			} else {
-				r = runStatements(scope, builtinDecls, builtinSetup, stmt)
+				r = runStatements(scope, builtinDecls, builtinSetupText(), stmt)
 			}
 		case "stmt":
 			if c.Stmt == "VERIF-CANARY-PANIC" && os.Getenv("VERIF_CANARY") == "1" {
@@ -463,6 +483,8 @@ func run(args []string) int {
 			r = runProg(b.Prog)
 		case "jump":
 			r = runJump(c)
+		case "bigcalls":
+			r = runBigCalls(c)
 		case "initerr":
 			r = runInitErr(c)
 		case "director":
@@ -1020,4 +1042,81 @@ func runDirector(c *tcase) result {
 	ip := interpreter.New(context.WithResolver(resolver.NewStaticResolver("main", vcl)))
 	ip.Debugger = quiet{}
 	return serveHistory(vcl, ip, c.NReq)
+}
+
+// ---------------------------------------------------------------- large structured call graphs
+
+func runBigCalls(c *tcase) result {
+	n := c.Size
+	callees := func(k int) []int {
+		var out []int
+		switch c.Shape {
+		case "ring":
+			if k+1 < n {
+				out = []int{k + 1}
+				if c.Doubled {
+					out = append(out, k+1)
+				}
+			} else if c.Recursive {
+				out = []int{0}
+			}
+		case "ladder":
+			for _, d := range []int{1, 2} {
+				if k+d < n {
+					out = append(out, k+d)
+				} else if c.Recursive {
+					out = append(out, 0)
+				}
+			}
+			if c.Doubled && k+1 < n {
+				out = append(out, k+1)
+			}
+		default: // layers of 3
+			layer := k / 3
+			if (layer+1)*3+2 < n {
+				for j := 0; j < 3; j++ {
+					out = append(out, (layer+1)*3+j)
+					if c.Doubled {
+						out = append(out, (layer+1)*3+j)
+					}
+				}
+			} else if c.Recursive {
+				out = []int{0}
+			}
+		}
+		return out
+	}
+	var sb strings.Builder
+	for k := 0; k < n; k++ {
+		if c.Functional {
+			fmt.Fprintf(&sb, "sub s%d STRING {\n  declare local var.x STRING;\n", k)
+			for _, t := range callees(k) {
+				fmt.Fprintf(&sb, "  set var.x = s%d();\n", t)
+			}
+			sb.WriteString("  return \"x\";\n}\n")
+		} else {
+			fmt.Fprintf(&sb, "sub s%d {\n", k)
+			for _, t := range callees(k) {
+				fmt.Fprintf(&sb, "  call s%d;\n", t)
+			}
+			sb.WriteString("}\n")
+		}
+	}
+	// the entry is guarded by a header no request carries: the graph is declared (and walked at initialisation) but an
+	// acyclic graph with exponentially many paths is not *executed* - executing 2^60 calls is not the simulator's fault
+	if c.Functional {
+		sb.WriteString("sub vcl_recv {\n  if (req.http.Run-It) {\n    set req.http.R = s0();\n  }\n  error 600;\n}\n")
+	} else {
+		sb.WriteString("sub vcl_recv {\n  if (req.http.Run-It) {\n    call s0;\n  }\n  error 600;\n}\n")
+	}
+	sb.WriteString("sub vcl_error {\n  return (deliver);\n}\n")
+	vcl := sb.String()
+	ip := interpreter.New(context.WithResolver(resolver.NewStaticResolver("main", vcl)))
+	ip.Debugger = quiet{}
+	text := vcl
+	if len(text) > 700 {
+		text = text[:400] + "\n...\n" + text[len(text)-250:]
+	}
+	r := serveHistory(text, ip, c.NReq)
+	return r
 }
